@@ -828,6 +828,12 @@ func init() {
 				if ph, err := c12PhysicalPath(f); err == nil {
 					res["first_phys"] = scrub(ph)
 				}
+				// … as the operating system reads it (".." after a symbolic link is not lexical): when the written path
+				// exists, the answer must exist and be the same file
+				if in, err := os.Stat(written); err == nil {
+					out, err := os.Stat(f)
+					res["same_file"] = err == nil && os.SameFile(in, out)
+				}
 			}
 			m2, bad := c12Resolve(core.DeepCopyVal(any(m1)).(map[string]any), filepath.Join(root, a.Wd), nil)
 			if bad != nil {
@@ -892,6 +898,7 @@ func init() {
 				Bad       string          `json:"bad"`
 				Unclean   bool            `json:"unclean"`
 				FirstPhys *string         `json:"first_phys"`
+				SameFile  *bool           `json:"same_file"`
 			}
 			json.Unmarshal(real, &r)
 			if r.Bad != "" {
@@ -902,7 +909,9 @@ func init() {
 				switch {
 				case r.First == nil:
 					return core.Fail("symlink:"+a.Name+":error", fmt.Sprintf("watch path %q: resolution fails (%s), expected a path for %s", a.Path, r.FirstErr, r.Want))
-				case r.FirstPhys == nil || *r.FirstPhys != r.Want:
+				case r.SameFile != nil && !*r.SameFile:
+					return core.Fail("symlink-unclean:names-another-file", fmt.Sprintf("absolute watch path %q exists (physically %s) but is rewritten to %s, which does not name that file (%s)", a.Path, r.Want, *r.First, a.Name))
+				case r.SameFile == nil && (r.FirstPhys == nil || *r.FirstPhys != r.Want):
 					return core.Fail("symlink-unclean:names-another-file", fmt.Sprintf("absolute watch path %q (physically %s) is rewritten to %s, which names %v (%s)", a.Path, r.Want, *r.First, r.FirstPhys, a.Name))
 				case r.Second == nil || *r.Second != *r.First:
 					return core.Fail("nonidempotent:develop.watch:"+a.Name, fmt.Sprintf("watch path %q resolves to %s, resolving again gives %v %s", a.Path, *r.First, r.Second, r.SecondErr))
